@@ -44,6 +44,7 @@ Definition parse_op (op : string) : list label :=
   else if String.eqb k "RESTART" then [LRestart]
   else if String.eqb k "BADM" then [LBadMethod c h]
   else if String.eqb k "HB" then [LHeartbeat c h]
+  else if String.eqb k "IDLE" then (if pB (a 2%N) then [LSocketLoss c] else [])
   else if String.eqb k "STARTOK" then [LMethod c 0%N (MStartOk (pB (a 2%N)))]
   else if String.eqb k "TUNEOK" then [LMethod c 0%N (MTuneOk (pB (a 2%N)))]
   else if String.eqb k "COPEN" then [LMethod c 0%N (MConnOpen (pB (a 2%N)))]
